@@ -103,6 +103,19 @@ pub fn run_case(case: &Case, out: &mut Out) {
                     }
                 }
             }
+            "origin" => {
+                let d = dir.as_ref().unwrap().path().to_owned();
+                match guard_mut(move || imm::read_blocks_from_point(&d, Point::Origin).map(collect)) {
+                    None => { out.viol("panic op=read_blocks_from_point origin", ""); out.panic(); }
+                    Some(Err(e)) => {
+                        // no block of the pool is a genesis block: a non-empty chain must be refused with OriginMissing
+                        if !(matches!(e, imm::Error::OriginMissing) && !chain.is_empty()) { out.viol("origin-wrong-error", err_class(&e)); }
+                        out.err(err_class(&e));
+                    }
+                    Some(Ok(Err(c))) => { out.viol("origin-read-failed", c); out.err(c); }
+                    Some(Ok(Ok(v))) => { if !chain.is_empty() { out.viol("origin-accepted-without-genesis", format!("{} blocks", v.len())); } out.ok(digest(&v)); }
+                }
+            }
             "tip" => {
                 let d = dir.as_ref().unwrap().path().to_owned();
                 match guard(move || imm::get_tip(&d)) {
@@ -227,7 +240,7 @@ pub fn generate(g: &mut Gen) {
         let immutable: usize = groups[..groups.len() - 1].iter().map(|g| g.len()).sum();
         let mut ops = vec![format!("realdb {} {} {}", groups.len(), groups.iter().map(|g| g.len().to_string()).collect::<Vec<_>>().join(" "),
             blocks.iter().map(tok).collect::<Vec<_>>().join(" "))];
-        ops.push("readall".into()); ops.push("tip".into());
+        ops.push("readall".into()); ops.push("tip".into()); ops.push("origin".into());
         let n = if g.thorough() { 150 } else { 14 };
         ops.extend(queries(g, &blocks[..immutable], &blocks, n, false));
         g.case(ops);
@@ -271,7 +284,7 @@ pub fn generate(g: &mut Gen) {
                 sizes.push(total - prev);
                 let immutable: usize = sizes[..k - 1].iter().sum();
                 ops.push(format!("db {} {} {}", k, sizes.iter().map(|s| s.to_string()).collect::<Vec<_>>().join(" "), blocks.iter().map(tok).collect::<Vec<_>>().join(" ")));
-                ops.push("readall".into()); ops.push("tip".into());
+                ops.push("readall".into()); ops.push("tip".into()); if g.rng.chance(1, 3) { ops.push("origin".into()); }
                 let exhaustive = g.thorough() || case % 12 == 0;
                 let n = g.rng.range(8, 20) as usize;
                 ops.extend(queries(g, &blocks[..immutable], &blocks, n, exhaustive));
